@@ -73,6 +73,9 @@ Model/MonC06.vos Model/MonC06.vok Model/MonC06.required_vos: Model/MonC06.v Mode
 Model/MonC11.vo Model/MonC11.glob Model/MonC11.v.beautified Model/MonC11.required_vo: Model/MonC11.v Model/Mon.vo Model/MonC07.vo
 Model/MonC11.vio: Model/MonC11.v Model/Mon.vio Model/MonC07.vio
 Model/MonC11.vos Model/MonC11.vok Model/MonC11.required_vos: Model/MonC11.v Model/Mon.vos Model/MonC07.vos
+Model/MonC02.vo Model/MonC02.glob Model/MonC02.v.beautified Model/MonC02.required_vo: Model/MonC02.v Model/Mon.vo
+Model/MonC02.vio: Model/MonC02.v Model/Mon.vio
+Model/MonC02.vos Model/MonC02.vok Model/MonC02.required_vos: Model/MonC02.v Model/Mon.vos
 Proofs/Framework.vo Proofs/Framework.glob Proofs/Framework.v.beautified Proofs/Framework.required_vo: Proofs/Framework.v Model/Mon.vo
 Proofs/Framework.vio: Proofs/Framework.v Model/Mon.vio
 Proofs/Framework.vos Proofs/Framework.vok Proofs/Framework.required_vos: Proofs/Framework.v Model/Mon.vos
@@ -136,6 +139,9 @@ Proofs/PC12.vos Proofs/PC12.vok Proofs/PC12.required_vos: Proofs/PC12.v Model/Ke
 Proofs/PC11.vo Proofs/PC11.glob Proofs/PC11.v.beautified Proofs/PC11.required_vo: Proofs/PC11.v Model/Mon.vo Model/MonC11.vo Proofs/StorePromises.vo Proofs/Eqb.vo
 Proofs/PC11.vio: Proofs/PC11.v Model/Mon.vio Model/MonC11.vio Proofs/StorePromises.vio Proofs/Eqb.vio
 Proofs/PC11.vos Proofs/PC11.vok Proofs/PC11.required_vos: Proofs/PC11.v Model/Mon.vos Model/MonC11.vos Proofs/StorePromises.vos Proofs/Eqb.vos
+Proofs/PC02.vo Proofs/PC02.glob Proofs/PC02.v.beautified Proofs/PC02.required_vo: Proofs/PC02.v Model/Mon.vo Model/MonC02.vo
+Proofs/PC02.vio: Proofs/PC02.v Model/Mon.vio Model/MonC02.vio
+Proofs/PC02.vos Proofs/PC02.vok Proofs/PC02.required_vos: Proofs/PC02.v Model/Mon.vos Model/MonC02.vos
 Props/C09.vo Props/C09.glob Props/C09.v.beautified Props/C09.required_vo: Props/C09.v Model/Mon.vo Model/MonC09.vo Proofs/StoreLocks.vo Proofs/Discipline.vo Proofs/SysInv.vo Proofs/PC09.vo
 Props/C09.vio: Props/C09.v Model/Mon.vio Model/MonC09.vio Proofs/StoreLocks.vio Proofs/Discipline.vio Proofs/SysInv.vio Proofs/PC09.vio
 Props/C09.vos Props/C09.vok Props/C09.required_vos: Props/C09.v Model/Mon.vos Model/MonC09.vos Proofs/StoreLocks.vos Proofs/Discipline.vos Proofs/SysInv.vos Proofs/PC09.vos
@@ -184,6 +190,9 @@ Props/C12.vos Props/C12.vok Props/C12.required_vos: Props/C12.v Model/Kernel.vos
 Props/C11.vo Props/C11.glob Props/C11.v.beautified Props/C11.required_vo: Props/C11.v Model/Mon.vo Model/MonC11.vo Proofs/StorePromises.vo Proofs/PC11.vo
 Props/C11.vio: Props/C11.v Model/Mon.vio Model/MonC11.vio Proofs/StorePromises.vio Proofs/PC11.vio
 Props/C11.vos Props/C11.vok Props/C11.required_vos: Props/C11.v Model/Mon.vos Model/MonC11.vos Proofs/StorePromises.vos Proofs/PC11.vos
+Props/C02.vo Props/C02.glob Props/C02.v.beautified Props/C02.required_vo: Props/C02.v Model/Mon.vo Model/MonC01.vo Model/MonC02.vo Model/MonC03.vo Proofs/SysInv.vo Proofs/PC01.vo Proofs/PC03.vo Proofs/PC02.vo
+Props/C02.vio: Props/C02.v Model/Mon.vio Model/MonC01.vio Model/MonC02.vio Model/MonC03.vio Proofs/SysInv.vio Proofs/PC01.vio Proofs/PC03.vio Proofs/PC02.vio
+Props/C02.vos Props/C02.vok Props/C02.required_vos: Props/C02.v Model/Mon.vos Model/MonC01.vos Model/MonC02.vos Model/MonC03.vos Proofs/SysInv.vos Proofs/PC01.vos Proofs/PC03.vos Proofs/PC02.vos
 Props/C15.vo Props/C15.glob Props/C15.v.beautified Props/C15.required_vo: Props/C15.v Gen/Status.vo Spec/Front15.vo Model/Coro.vo
 Props/C15.vio: Props/C15.v Gen/Status.vio Spec/Front15.vio Model/Coro.vio
 Props/C15.vos Props/C15.vok Props/C15.required_vos: Props/C15.v Gen/Status.vos Spec/Front15.vos Model/Coro.vos
